@@ -32,7 +32,7 @@ func apiDocs() []string {
 		`{"a":[[1,2],[3]],"b":[4]}`, `{"a":1,"list":[10,20]}`, `{"a":2,"list":[10,20]}`, `{"x":[{"a":"s"},{"a":1.5},{"a":null},{"a":true},{"a":[1]},{"a":{"b":1}}]}`,
 		`{"a":{"b":{"c":[1,{"d":2}]}},"e":[{"f":1},{"f":2}]}`, `[[1,2],[3,4],[]]`, `{"b":"x","a":"y","c":{"b":1,"a":2}}`,
 		`[{"a":1e400},{"a":1}]`, `{"strict":false,"items":[{"ok":true,"n":1},{"ok":false,"n":5},{"n":7}]}`, `{"want":2,"items":[{"v":1},{"v":2},{"v":3}]}`, `{"items":[{"v":1},{"v":2}]}`, `{"want":5,"items":[{"v":1}]}`,
-		`{"ref":[1,2],"list":[{"v":[1,2]},{"v":3}]}`, `[0,1,2,3,4]`, `[0,1,2,3,4,5,6,7,8,9,10,11,12]`,
+		`{"ref":[1,2],"list":[{"v":[1,2]},{"v":3}]}`, `[0,1,2,3,4]`, `[0,1,2,3,4,5,6,7,8,9,10,11,12]`, `{"flag":true,"list":[{"x":1}]}`, `[{"a":1}]`, `{"k1":{"a":1,"b":2},"k2":{"a":3,"b":4},"k3":{"a":5,"b":6}}`, `{"x":[{"a":[{"b":1},{"b":0}]},{"a":[1,2]},{"a":3}]}`,
 	}
 }
 
@@ -50,6 +50,8 @@ func apiPaths() []string {
 		`$.items[?(($.strict == false || @.ok == true) && @.n > 1)]`, `$.items[?((@.ok == true || $.strict == false) && @.n > 1)]`, `$.items[?((!@.zz || @.ok == true) && @.n > 1)]`,
 		`$.items[?(@.v == $.want)]`, `$.items[?(@.v > $.want)]`, `$.list[?(@.v == $.ref)]`, `$.list[?($.ref == @.v)]`, `$[?(@ == $[0])]`, `$[?(@.a == $[0].a)]`, `$[?(@.a < 1e300)]`, `$[?(@.a >= 0)]`,
 		`$.items[?(2 >= $.want)]`, `$.items[?(2 > $.want)]`, `$.items[?(1 <= $.want)]`, `$.items[?(3 < $.want)]`, `$.list[?(1 >= $.a)]`, `$.list[?(1 < $.a)]`,
+		`$.x[?(@.a[?(@.b > 0)])]`, `$.x[?(@.a[?(@.b > 0)])].a`, `$[?(@.a[?(@ > 0)])]`, `$.x[?(@.a > 0 && @.a[?(@ > 0)])]['a']`, `$.list[?($.flag)]`, `$.list[?(!$.flag)]`, `$.list[?($.flag && @.x == 1)]`, `$[?($[0].a)]`,
+		`$[?(@.a)].*`, `$[?(@.a)]..a`, `$[?(@.a)][?(@ > 0)]`,
 		`$[-2:]`, `$[-3:]`, `$[-2:].slow()`, `$[1:].slow()`, `$[-3:]..a`, `$.*.slow()`, `$..a.slow()`, `$[?(@.a)].slow()`, `$[-2:].twice()`, `$[1:3]`, `$[?(@ > 1)]`,
 		`$['a','b'].twice()`, `$['a','b'].collect()`, `$..a.collect()`, `$.zz`, `$.a.zz`, `$[10]`, `$.*.zz`, `$..zz`, `$[?(@.zz)]`, `$.a[0]`, `$[0].a`,
 	}
@@ -494,6 +496,57 @@ func apiSetEq(a, b map[int]bool) bool {
 		}
 	}
 	return true
+}
+
+// C10: numeric comparison is by value: every spelling of a number selects the same members whether the document was
+// decoded to float64 or to json.Number
+func apiCheckNumberSpellings(t *testing.T) {
+	spell := []string{"0", "-0", "1", "1.0", "1e0", "10", "1e1", "1E2", "100", "0.1", "1e-1", "-1", "-1.5", "18446744073709551615", "9223372036854775807", "9223372036854775808",
+		"-9223372036854775808", "-9223372036854775809", "1e19", "123456789012345678901234567890", "0.30000000000000004", "1.7976931348623157e308", "5e-324", "00.5e1"}
+	var ok []string
+	for _, sp := range spell {
+		var probe interface{}
+		if json.Unmarshal([]byte(sp), &probe) == nil {
+			ok = append(ok, sp) // only spellings JSON accepts
+		}
+	}
+	src := `[`
+	for i, sp := range ok {
+		if i > 0 {
+			src += ","
+		}
+		src += fmt.Sprintf(`{"id":%d,"v":%s}`, i, sp)
+	}
+	src += `]`
+	plain, numbered := refDecode(src, false), refDecode(src, true)
+	ids := func(doc interface{}, path string) string {
+		apiCount()
+		res, err := Retrieve(path, doc)
+		if err != nil {
+			return fmt.Sprintf("%T", err)
+		}
+		return apiSnapshot(res)
+	}
+	for _, sp := range ok {
+		for _, op := range []string{"==", "!=", "<", "<=", ">", ">="} {
+			for _, form := range []string{"$[?(@.v %s %s)].id", "$[?(%[2]s %[1]s @.v)].id"} {
+				path := fmt.Sprintf(form, op, sp)
+				if a, b := ids(plain, path), ids(numbered, path); a != b {
+					t.Errorf("REPRODUCED: %q selects %s on the float64 document and %s on the json.Number document", path, a, b)
+					return
+				}
+			}
+		}
+	}
+	for i := range ok {
+		for _, op := range []string{"==", "<", ">="} {
+			path := fmt.Sprintf("$[?(@.v %s $[%d].v)].id", op, i)
+			if a, b := ids(plain, path), ids(numbered, path); a != b {
+				t.Errorf("REPRODUCED: %q selects %s on the float64 document and %s on the json.Number document", path, a, b)
+				return
+			}
+		}
+	}
 }
 
 func apiCheckFilters(t *testing.T) {
@@ -1196,6 +1249,17 @@ func refDocs() []string {
 	}
 }
 
+// documents assembled in Go in which one container is reachable twice (no cycle): results depend on the value of the
+// document only, never on how it was built
+func refSharedDocs() ([]interface{}, []string) {
+	shared := map[string]interface{}{"a": 1.0, "b": []interface{}{"x", "y"}}
+	d1 := map[string]interface{}{"a": map[string]interface{}{"c": shared}, "b": shared}
+	items := []interface{}{map[string]interface{}{"a": 1.0}, map[string]interface{}{"a": 2.0}, map[string]interface{}{"a": 3.0}}
+	d2 := map[string]interface{}{"a": items, "b": items[:1], "c": items[1:]}
+	d3 := []interface{}{shared, shared, []interface{}{shared}}
+	return []interface{}{d1, d2, d3}, []string{"an object whose members share one sub-object", "an object whose members are views of one array", "an array holding the same object three times"}
+}
+
 func refRender(steps []refStep) string {
 	p := "$"
 	for _, s := range steps {
@@ -1241,6 +1305,16 @@ func apiCheckSelect(t *testing.T) {
 						t.Errorf("REPRODUCED: %q on %s (UseNumber=%v): Retrieve gives %s, %v; the step-by-step definition gives %s", path, ds, un, apiSnapshot(got), err, apiSnapshot(want))
 						return
 					}
+				}
+			}
+			shared, names := refSharedDocs()
+			for i, doc := range shared {
+				want := refEval(prefix, doc)
+				apiCount()
+				got, err := Retrieve(path, doc)
+				if (len(want) == 0) != (err != nil) || (err == nil && apiSnapshot(got) != apiSnapshot(want)) {
+					t.Errorf("REPRODUCED: %q on %s (%s): Retrieve gives %s, %v; the step-by-step definition gives %s", path, names[i], apiSnapshot(doc), apiSnapshot(got), err, apiSnapshot(want))
+					return
 				}
 			}
 		}
@@ -1350,7 +1424,7 @@ func apiCheckParseTotal(t *testing.T) {
 		}
 	}
 	paths = append(paths, apiPaths()...)
-	paths = append(paths, ``, ` `, `$.`, `$..`, `$[`, `$[]`, `$['a`, `$["a"`, `$[?(`, `$[?()]`, `$[?(@.a ==)]`, `$[(1+1)]`, `$[(]`, `$.a.b(`, `$.a.nofunc()`, `$.é[`, `$.\u00e9`, "$.\xff", "$[\x00]", `$[99999999999999999999]`, `$[1:99999999999999999999]`,
+	paths = append(paths, ``, ` `, `$.`, `$..`, `$[`, `$[]`, `$['a`, `$["a"`, `$[?(`, `$[?()]`, `$[?(@.a ==)]`, `$[(1+1)]`, `$[(]`, `$.a.b(`, `$.a.nofunc()`, `$.é[`, `$.\u00e9`, "$.\xff", "$.\xff[", "\xff$", "$.a\xc3.\xff..", "$['\xff\xfe']]", "$.\xff\xff\xff[a", "$[\x00]", `$[99999999999999999999]`, `$[1:99999999999999999999]`,
 		`$[?(@.a == 99999999999999999999999999999999999999999999999999999999999999999999999999999999999999999999999999999999999e999999)]`, `$[?(@.a =~ /[/)]`, `$['\ud800']`, `$['\z']`, `$["\z"]`,
 		`$[?(@.a.g().g() == 1)]`, `$[?($.g().g())]`, `$.a.g().g()`, `$[?(@.a == @.b)]`, `$[?(@.* == 1)]`, `$[?(@.a && (@.b || !@.c))]`, `$[?(((@.a)))]`, `$[?((@.a) == 1)]`, `@.a`, `a`, `['a']`, `..a`, `$.*.*..*[*][*,*]`, `$[0,1:2,*]`, `$[ 0 , 1 ]`, `$[?( @.a==1 )]`)
 	// character-level mutations
@@ -1464,12 +1538,16 @@ func apiCheckParseIndependent(t *testing.T) {
 type apiStruct struct{ X int }
 
 // C20: documents with non-JSON leaves
+type apiFixed int
+
+func (f apiFixed) Float64() (float64, error) { return float64(f) / 100, nil }
+
 func apiForeignDocs() ([]interface{}, []string) {
 	ch := make(chan int)
 	fn := func() {}
 	var np *int
 	leaves := []interface{}{apiStruct{1}, &apiStruct{2}, map[string]int{"a": 1}, []int{1, 2}, 7, int64(7), uint8(1), np, fn, ch, struct{}{}, [2]int{1, 2},
-		map[int]string{1: "a"}, []string{"a"}, json.Number("1"), float32(1.5), complex(1, 2), []interface{}{fn}, map[string]interface{}{"f": fn}, error(fmt.Errorf("e"))}
+		map[int]string{1: "a"}, []string{"a"}, json.Number("1"), float32(1.5), complex(1, 2), []interface{}{fn}, map[string]interface{}{"f": fn}, error(fmt.Errorf("e")), apiFixed(150), (*json.Number)(nil), new(apiFixed)}
 	var docs []interface{}
 	var names []string
 	for i, l := range leaves {
@@ -1518,6 +1596,9 @@ func TestVerifReplay(t *testing.T) {
 		apiCheckErrors(t)
 	case "C09", "C10":
 		apiCheckFilters(t)
+		if rec.Property == "C10" && !t.Failed() {
+			apiCheckNumberSpellings(t)
+		}
 	case "C12", "C13":
 		apiCheckAccessor(t)
 	case "C20":
